@@ -63,7 +63,7 @@ Qed.
 (* ---------- PrependError ---------- *)
 Definition kind_after_prepend (k : kind) : kind :=
   match k with
-  | KPlain | KWrapped => KPlain
+  | KPlain | KWrapped | KOpaque => KPlain
   | KTransport => KTransport
   | KProtocol => KProtocol
   | KApp | KForeign => KApp
@@ -77,7 +77,7 @@ Proof. destruct e; reflexivity. Qed.
 
 Lemma prepend_id nid p e : forall x, same (prepend nid p e) x = true ->
   match x with
-  | Plain i _ | Wrapped i _ _ | Transport i _ _ | Protocol i _ _ _ | App i _ _ | Foreign _ i _ _ => i = nid
+  | Plain i _ | Wrapped i _ _ | Transport i _ _ | Protocol i _ _ _ | App i _ _ | Foreign _ i _ _ | Opaque i _ => i = nid
   end.
 Proof.
   intros x. destruct e, x; cbn [prepend new_transport new_protocol new_app same]; intros H;
@@ -88,7 +88,7 @@ Lemma prepend_text_general nid p e :
   kind_of e <> KForeign \/ p ++ text e <> [] -> text (prepend nid p e) = p ++ text e.
 Proof.
   intros H.
-  destruct e as [i s|i s c|i t m|i t m c|i t m|bv i t s];
+  destruct e as [i s|i s c|i t m|i t m c|i t m|bv i t s|i s];
     cbn [prepend new_transport new_protocol new_app]; cbn [text];
     try reflexivity;
     try (apply app_text_id, app_ne_r, app_text_nonempty).
@@ -100,7 +100,7 @@ Lemma prepend_text_foreign_empty nid p e t :
   kind_of e = KForeign -> type_id e = Some t -> p ++ text e = [] ->
   text (prepend nid p e) = default_text t.
 Proof.
-  destruct e as [i s|i s c|i t' m|i t' m c|i t' m|bv i t' s]; cbn [kind_of]; try discriminate.
+  destruct e as [i s|i s c|i t' m|i t' m c|i t' m|bv i t' s|i s]; cbn [kind_of]; try discriminate.
   cbn [type_id text prepend new_app]. intros _ E H. inversion E; subst. rewrite H. reflexivity.
 Qed.
 
@@ -127,24 +127,33 @@ Proof.
 Qed.
 
 (* the prefix concatenation is what Msg() stores, for the thrift kinds *)
-Lemma prepend_msg nid p e : kind_of e <> KPlain -> kind_of e <> KWrapped ->
+Lemma prepend_msg nid p e : kind_of e <> KPlain -> kind_of e <> KWrapped -> kind_of e <> KOpaque ->
   msg_of (prepend nid p e) = Some (p ++ text e).
-Proof. destruct e; cbn [kind_of]; intros H1 H2; try congruence; reflexivity. Qed.
+Proof. destruct e; cbn [kind_of]; intros H1 H2 H3; try congruence; reflexivity. Qed.
 
 Lemma prepend_no_cause nid p e : unwrap (prepend nid p e) = None.
 Proof. destruct e; reflexivity. Qed.
 
 (* ---------- errors.Is ---------- *)
-Lemma same_refl e : same e e = true.
+(* Go's errors.Is applies [==] only to comparable targets; the modelled non-comparable type is [Opaque] *)
+Definition comparable (e : err) : bool := match e with Opaque _ _ => false | _ => true end.
+
+Lemma same_refl e : comparable e = true -> same e e = true.
 Proof.
-  destruct e as [i s|i s c|i t m|i t m c|i t m|[|] i t s]; cbn [same]; try apply N.eqb_refl.
+  destruct e as [i s|i s c|i t m|i t m c|i t m|[|] i t s|i s]; cbn [same comparable]; intros Hc;
+    try apply N.eqb_refl; try discriminate.
   rewrite Z.eqb_refl. cbn [andb]. now apply beqb_eq.
 Qed.
 
+Lemma same_opaque_l i s x : same (Opaque i s) x = false.
+Proof. destruct x; reflexivity. Qed.
+Lemma same_opaque_r i s x : same x (Opaque i s) = false.
+Proof. destruct x as [| | | | |[|]|]; reflexivity. Qed.
+
 Lemma same_sym a b : same a b = same b a.
 Proof.
-  destruct a as [i s|i s c|i t m|i t m c|i t m|[|] i t s],
-           b as [j s'|j s' c'|j t' m'|j t' m' c'|j t' m'|[|] j t' s']; cbn [same];
+  destruct a as [i s|i s c|i t m|i t m c|i t m|[|] i t s|i s],
+           b as [j s'|j s' c'|j t' m'|j t' m' c'|j t' m'|[|] j t' s'|j s']; cbn [same];
     try reflexivity; try apply N.eqb_sym.
   rewrite Z.eqb_sym. f_equal.
   destruct (beqb s s') eqn:E1, (beqb s' s) eqn:E2; try reflexivity.
@@ -161,8 +170,8 @@ Lemma is_unfold e x :
            end.
 Proof. destruct e; reflexivity. Qed.
 
-Lemma is_refl e : is e e = true.
-Proof. rewrite is_unfold, same_refl. reflexivity. Qed.
+Lemma is_refl e : comparable e = true -> is e e = true.
+Proof. intros Hc. rewrite is_unfold, (same_refl e Hc). reflexivity. Qed.
 
 Lemma is_protocol i t m c x :
   is (Protocol i t m c) x = same (Protocol i t m c) x || texc_match t m x || is_o c x.
@@ -216,12 +225,12 @@ Lemma wrap_keeps_cause nid e : kind_of e <> KProtocol ->
   type_id r = Some thrift_UNKNOWN_PROTOCOL_EXCEPTION /\
   msg_of r = Some (text e) /\
   unwrap r = Some e /\
-  is r e = true /\
+  (comparable e = true -> is r e = true) /\
   (forall x, is e x = true -> is r x = true).
 Proof.
   intros H r. subst r. rewrite (wrap_shape nid e H).
   repeat split; try reflexivity.
-  - rewrite is_protocol. cbn [is_o]. rewrite is_refl. apply orb_true_r.
+  - intros Hc. rewrite is_protocol. cbn [is_o]. rewrite (is_refl e Hc). apply orb_true_r.
   - intros x Hx. rewrite is_protocol. cbn [is_o]. rewrite Hx. apply orb_true_r.
 Qed.
 
@@ -238,6 +247,7 @@ Section ErrInd.
   Hypothesis HPs : forall i t m c, P c -> P (Protocol i t m (Some c)).
   Hypothesis HAp : forall i t m, P (App i t m).
   Hypothesis HFo : forall bv i t s, P (Foreign bv i t s).
+  Hypothesis HOp : forall i s, P (Opaque i s).
   Fixpoint err_ind' (e : err) : P e :=
     match e with
     | Plain i s => HPl i s
@@ -247,6 +257,7 @@ Section ErrInd.
     | Protocol i t m (Some c) => HPs i t m c (err_ind' c)
     | App i t m => HAp i t m
     | Foreign bv i t s => HFo bv i t s
+    | Opaque i s => HOp i s
     end.
 End ErrInd.
 
@@ -259,7 +270,7 @@ Fixpoint chain (e : err) : list err :=
        end.
 
 Lemma chain_unwrap e : chain e = e :: match unwrap e with Some c => chain c | None => [] end.
-Proof. destruct e as [| | |i t m [c|]| |]; reflexivity. Qed.
+Proof. destruct e as [| | |i t m [c|]| | |]; reflexivity. Qed.
 
 (* one link of the chain matches the target: identical, or a protocol exception whose
    (type id, message) equal the target's (type id, text) *)
@@ -268,7 +279,7 @@ Definition link_match (y x : err) : bool :=
 
 Lemma is_chain e x : is e x = existsb (fun y => link_match y x) (chain e).
 Proof.
-  induction e as [i s|i s c IH|i t m|i t m|i t m c IH|i t m|bv i t s] using err_ind';
+  induction e as [i s|i s c IH|i t m|i t m|i t m c IH|i t m|bv i t s|i s] using err_ind';
     unfold link_match in *.
   - cbn. now rewrite !orb_false_r.
   - rewrite is_wrapped, IH. cbn [chain existsb]. now rewrite orb_false_r.
@@ -277,18 +288,19 @@ Proof.
   - rewrite is_protocol. cbn [is_o]. rewrite IH. cbn [chain existsb]. reflexivity.
   - cbn. now rewrite !orb_false_r.
   - cbn. now rewrite !orb_false_r.
+  - cbn. rewrite ?orb_false_r. reflexivity.
 Qed.
 
-Lemma is_reaches_chain e y : In y (chain e) -> is e y = true.
+Lemma is_reaches_chain e y : comparable y = true -> In y (chain e) -> is e y = true.
 Proof.
-  intros H. rewrite is_chain. apply existsb_exists. exists y. split; [exact H|].
-  unfold link_match. now rewrite same_refl.
+  intros Hy H. rewrite is_chain. apply existsb_exists. exists y. split; [exact H|].
+  unfold link_match. now rewrite (same_refl y Hy).
 Qed.
 
 Lemma is_trans_chain e c x : In c (chain e) -> is c x = true -> is e x = true.
 Proof.
   revert c x.
-  induction e as [i s|i s c0 IH|i t m|i t m|i t m c0 IH|i t m|bv i t s] using err_ind';
+  induction e as [i s|i s c0 IH|i t m|i t m|i t m c0 IH|i t m|bv i t s|i s] using err_ind';
     intros c x Hin Hc; cbn [chain In] in Hin;
     try (destruct Hin as [<-|[]]; exact Hc).
   - destruct Hin as [<-|Hin]; [exact Hc|]. rewrite is_wrapped, (IH c x Hin Hc). apply orb_true_r.
@@ -306,5 +318,14 @@ Lemma wrap_identity_on_protocol nid i t m c :
 Proof. reflexivity. Qed.
 
 Lemma cause_chain_reachable e c x :
-  In c (chain e) -> is e c = true /\ (is c x = true -> is e x = true).
-Proof. intros H. split; [exact (is_reaches_chain e c H)|exact (is_trans_chain e c x H)]. Qed.
+  In c (chain e) -> (comparable c = true -> is e c = true) /\ (is c x = true -> is e x = true).
+Proof. intros H. split; [intros Hc; exact (is_reaches_chain e c Hc H)|exact (is_trans_chain e c x H)]. Qed.
+
+(* a non-comparable value is matched by nothing — not even by itself — unless a protocol exception on
+   the chain matches it by (type id, text), which needs a TypeId method it does not have *)
+Lemma is_opaque_target e i s : is e (Opaque i s) = false.
+Proof.
+  rewrite is_chain. apply Bool.not_true_iff_false. intros H. apply existsb_exists in H as [y [_ Hy]].
+  unfold link_match in Hy. rewrite same_opaque_r in Hy. cbn [orb] in Hy.
+  destruct y; cbn in Hy; discriminate Hy.
+Qed.
